@@ -209,6 +209,9 @@ func genShared(r *prng.R, n int) []string {
 			tl.ops = append(tl.ops, fmt.Sprintf("resp %s id=r%d st=200 body=%s tag=t%d ra=%%n", key, rid,
 				proto.Enc(prng.Pick(r, bodies)), rid))
 			tl.mark(tl.now + int64(rems[ri].ttl)*ttlUnit)
+			if r.Chance(60) {
+				tl.ops = append(tl.ops, "probe") // what did THIS remedy add?
+			}
 		case x < 64:
 			tl.ops = append(tl.ops, "req "+key)
 		case x < 84:
@@ -222,6 +225,80 @@ func genShared(r *prng.R, n int) []string {
 	tl.ops = append(tl.ops, "probe")
 	return tl.ops
 }
+
+// several throttling configurations (own header name / type / statuses) on the one plugin
+func genTShared(r *prng.R, n int) []string {
+	t0 := t0base + prng.Pick(r, subSecond)
+	nrem := r.Range(2, 3)
+	hdrNames := []string{"retry-after", "x-ratelimit-reset", "x_reset"}
+	type rem struct{ ty, hdr string }
+	var rems []rem
+	cfg := fmt.Sprintf("cfg tshared t0=%d", t0)
+	for i := 0; i < nrem; i++ {
+		rm := rem{ty: prng.Pick(r, []string{"rel", "rel", "rel", "abs", "undef"}), hdr: prng.Pick(r, hdrNames)}
+		rems = append(rems, rm)
+		cfg += fmt.Sprintf(" r%d=%s/%s/%s", i, rm.ty, prng.Pick(r, []string{"429", "429,503", "429,503"}), rm.hdr)
+	}
+	tl := &timeline{r: r, now: t0, ops: []string{cfg}}
+	urls := []string{"a.com/x", "a.com/y"}
+	if r.Chance(60) {
+		urls = urls[:1]
+	}
+	rid := 0
+	for len(tl.ops) <= n {
+		ri := r.Intn(nrem)
+		key := fmt.Sprintf("r=%d m=GET u=%s", ri, prng.Pick(r, urls))
+		switch x := r.Intn(100); {
+		case x < 30:
+			rid++
+			// each header of the alphabet is present with probability 1/2 (sorted by name), own value form
+			var hs []string
+			for _, name := range []string{"content-type", "retry-after", "x-ratelimit-reset", "x_reset"} {
+				if name == "content-type" {
+					if r.Chance(40) {
+						hs = append(hs, name+":text/plain")
+					}
+					continue
+				}
+				if !r.Chance(55) {
+					continue
+				}
+				var v string
+				form := r.Intn(6)
+				for _, rm := range rems {
+					// an epoch-sized value read by a relative configuration cannot be compared in exact ns (float64)
+					if rm.ty == "rel" && rm.hdr == name && form == 0 {
+						form = 2
+					}
+				}
+				switch form {
+				case 0:
+					v = fmt.Sprint(tl.now/1_000_000_000 + int64(r.Range(0, 3)))
+					tl.mark((tl.now/1_000_000_000 + 3) * 1_000_000_000)
+				case 1:
+					v = prng.Pick(r, []string{"abc", "", "-1"})
+				default:
+					v = prng.Pick(r, []string{"1", "2", "0.5", "1.5", "30"})
+					tl.mark(tl.now + dyadic2[v])
+				}
+				hs = append(hs, name+":"+v)
+			}
+			tl.ops = append(tl.ops, fmt.Sprintf("resp %s id=r%d st=%d body=%s h=%s", key, rid,
+				prng.Pick(r, []int{429, 429, 503, 200}), proto.Enc(fmt.Sprintf("slow %d", rid)), proto.Enc(strings.Join(hs, ","))))
+		case x < 66:
+			tl.ops = append(tl.ops, "req "+key)
+		case x < 88:
+			tl.move()
+		case x < 95:
+			tl.fire()
+		default:
+			tl.ops = append(tl.ops, "probe")
+		}
+	}
+	return tl.ops
+}
+
+var dyadic2 = map[string]int64{"1": 1e9, "2": 2e9, "0.5": 5e8, "1.5": 15e8, "30": 30e9}
 
 func genThrottle(r *prng.R, n int) []string {
 	t0 := t0base + prng.Pick(r, subSecond)
@@ -331,9 +408,9 @@ func enumerate(alphabet []string, n int, f func([]string)) {
 }
 
 func gen(r *prng.R, f proto.Flags, emit func(proto.Case)) {
-	n := 800
+	n := 1000
 	if f.Tier == "thorough" {
-		n = 12000
+		n = 15000
 	}
 	n *= f.Budget
 	id := 0
@@ -341,15 +418,17 @@ func gen(r *prng.R, f proto.Flags, emit func(proto.Case)) {
 		rr := r.Fork()
 		ln := rr.Range(6, 30)
 		var ops []string
-		switch k % 4 {
+		switch k % 5 {
 		case 0:
 			ops = genCache(rr, ln)
 		case 1:
 			ops = genCaching(rr, ln)
 		case 2:
 			ops = genThrottle(rr, ln)
-		default:
+		case 3:
 			ops = genShared(rr, ln)
+		default:
+			ops = genTShared(rr, ln)
 		}
 		ops = maybeMalformed(rr, ops)
 		id++
